@@ -50,6 +50,7 @@ def case(draw):
         alts=[draw(st.integers(0, 500)) for _ in range(draw(st.integers(0, 2)))],
         label_chain=draw(st.sampled_from(["same", "AA", "other"])),
         charges=draw(st.booleans()),
+        zero_charge=draw(st.sampled_from([False, False, True])),  # explicit 0 in pdbx_formal_charge (PDB: blank)
         shim=draw(st.booleans()),
         ff=draw(st.sampled_from(["AMBER", "PARSE", "CHARMM", "SWANSON"])),
         opts=draw(st.sampled_from([[], [], ["--noopt"], ["--nodebump"], ["--clean"]])),
@@ -75,6 +76,8 @@ def atoms_of(case):
             base = dict(rec="ATOM", name=r["name"], resn=r["resn"], chain=r["chain"], label_chain=label, seq=r["seq"],
                         icode=r["icode"], b=10.0, elem=r["name"].lstrip("0123456789")[0], model=labels[m - 1],
                         charge="", pdbcharge="", label_seq=r["group"][2] + 1)  # fmt: skip  (label_seq_id is 1-based, as in wwPDB files)
+            if case.get("zero_charge"):
+                base["charge"] = "0"
             if case["charges"] and r["name"] in ("NZ", "OD2", "OE2"):
                 base["charge"] = "1" if r["name"] == "NZ" else "-1"
                 base["pdbcharge"] = "1+" if r["name"] == "NZ" else "1-"
